@@ -67,7 +67,10 @@ CT_PRES_MACRO = "application/vnd.ms-powerpoint.presentation.macroEnabled.main+xm
 CT_FOREIGN = {
     "word": "application/vnd.openxmlformats-officedocument.wordprocessingml.document.main+xml",
     "excel": "application/vnd.openxmlformats-officedocument.spreadsheetml.sheet.main+xml",
-    "template": "application/vnd.openxmlformats-officedocument.presentationml.template.main+xml",  # observed only
+    # a template (.potx) or slide show (.ppsx) main part is PresentationML but not "a presentation": api._is_pptx_package lists
+    # exactly the two presentation main types, and the statement names ValueError for a non-presentation main part
+    "template": "application/vnd.openxmlformats-officedocument.presentationml.template.main+xml",
+    "slideshow": "application/vnd.openxmlformats-officedocument.presentationml.slideshow.main+xml",
 }
 UNKNOWN_CT = "application/x-unknown-verif"
 GHOST_RELS = ('<?xml version="1.0" encoding="UTF-8" standalone="yes"?>\n<Relationships xmlns="%s"><Relationship Id="rId1" Type="%s/slideMaster" '
@@ -81,7 +84,7 @@ EXTRAS = {  # variant -> (member, payload (None = copy of a slide), Override typ
     "dir-entry": ("ppt/verifEmptyDir/", b"", None),
 }
 STRUCT = {"no-content-types": KeyError, "no-root-rels": KeyError, "no-office-document-rel": KeyError, "main-part-absent": KeyError,
-          "main-type-word": ValueError, "main-type-excel": ValueError}
+          "main-type-word": ValueError, "main-type-excel": ValueError, "main-type-template": ValueError, "main-type-slideshow": ValueError}
 TRUNC = ["trunc-head", "trunc-mid-member", "trunc-member-boundary", "trunc-mid-central-directory", "trunc-no-eocd", "trunc-mid-eocd", "trunc-random"]
 SYNTH = ["empty", "text", "random", "zip-not-opc", "zip-empty", "empty-directory", "nonexistent-path"]
 _DECKS = {}
@@ -264,7 +267,7 @@ def apply_fault(m, f):
         return False
     if k == "sliderename":
         return rename_parts(m, dict(f["map"]))
-    if k in STRUCT or k == "main-type-template":
+    if k in STRUCT:
         mp = main_part(pkg_of(m))
         if k == "no-content-types":
             return m.pop("[Content_Types].xml", None) is not None
@@ -638,7 +641,7 @@ def classify_pkg(pkg):
     ct = pkg.ctype(od[0].target)
     if ct in (CT_PRES, CT_PRES_MACRO):
         return "accept"
-    return None if ct in _opcx().PRES_MAIN_TYPES else ValueError
+    return ValueError
 
 
 def nonpkg_input(d):
@@ -650,7 +653,7 @@ def nonpkg_input(d):
         b = bytearray(load_deck(d["deck"])[0])
         b[d["offset"]] ^= 0xFF
         return "bytes", bytes(b)
-    if c in STRUCT or c == "main-type-template":
+    if c in STRUCT:
         m = dict(load_deck(d["deck"])[1])
         if not apply_fault(m, {"kind": c}):
             raise RuntimeError("structural fault %s not applicable to %s" % (c, d["deck"]))
@@ -678,7 +681,7 @@ def run_nonpkg(d, acc):
     opcx = _opcx()
     kind, payload = nonpkg_input(d)
     form, cls = d["form"], d["nonpkg"]
-    judged = cls not in ("corrupt-member-data", "main-type-template")
+    judged = cls not in ("corrupt-member-data",)
     also = ()
     if kind == "members":
         expected = classify_pkg(pkg_of(payload))
@@ -761,7 +764,7 @@ def nonpkg_deck_cases(rel, rnd, everything):
     for cls, cs in cuts.items():
         cs = sorted(set(cs)) if everything or cls == "trunc-random" else [rnd.choice(cs)]
         out += [{"nonpkg": cls, "deck": rel, "cut": c, "form": f} for c in cs for f in ("stream", "path")]
-    for cls in list(STRUCT) + ["main-type-template"]:
+    for cls in list(STRUCT):
         out += [{"nonpkg": cls, "deck": rel, "form": f} for f in (("stream", "path", "dir") if everything else (rnd.choice(["stream", "path"]), "dir"))]
     big = [i for i in infos if i.compress_size > 40]
     for _ in range(8 if everything else 2):
